@@ -130,7 +130,7 @@ def step (s : Unit) (args : List String) (impl : String) : Unit × Out :=
           { K := { fingerprint := fun _ => some signerFp, altFingerprint := fun _ => some "", checkSig := fun _ _ => true },
             tbsBytes := fun c => if c.version == 1 then V1.signedBytes c
                                  else (V2.encodeDetails c).map (fun rd => V2.signedBytes rd c.curve c.publicKey),
-            sign := fun _ => some sig, normalize := P256.normalize }
+            sign := fun _ => some sig, normalize := P256.normalize, tooLarge := V2.tooLarge }
         let m := match signWith E (signer.map (·.1)) t.curve t with
           | .error e => signErrStr e
           | .ok c =>
@@ -155,7 +155,11 @@ def step (s : Unit) (args : List String) (impl : String) : Unit × Out :=
           if impl.startsWith "ok " then
             match (impl.splitOn " ").drop 3 with
             | ["same", "same", "same"] => "ok"
-            | l => s!"bad {rtClass t} {" ".intercalate l}"
+            | l =>
+              -- an issued encoding longer than the decoder's limit is its own class of input
+              let stdLen := ((impl.splitOn " ").getD 1 "").length / 2
+              let cls := if t.version == 2 && stdLen > Gen.cert_MaxCertificateSize then "v2-exceeds-max-certificate-size" else rtClass t
+              s!"bad {cls} {" ".intercalate l}"
           else if impl.startsWith "err:" then "ok" else "bad issue-no-verdict"
         let tag := if m.startsWith "ok" then s!"issue{t.version}:" ++ " ".intercalate ((m.splitOn " ").drop 3) else "issue:" ++ m
         (s, { model := m, verdict := verdict, tag := tag })
